@@ -23,7 +23,7 @@ type c15Case struct {
 	Method string `json:"method"`
 	CType  string `json:"ctype"` // "" = header absent
 	Body   string `json:"body"`
-	Query  string `json:"query"` // raw query string without '?'
+	Query  string `json:"query"`         // raw query string without '?'
 	Ptr    bool   `json:"ptr,omitempty"` // the schema is z.Ptr(z.Struct(...)): "the record may not exist"
 }
 
